@@ -20,7 +20,11 @@
       ENVID (non-empty printable ASCII), AUTH (7-bit mailboxes the server's
       parser accepts whole; the empty string as AUTH=<>), RET, SMTPUTF8,
       REQUIRETLS, BODY (7BIT, 8BITMIME, BINARYMIME), SIZE (every n < 2^63 within the server's
-      limit), ORCPT rfc822 / utf-8 in BOTH forms, NOTIFY (the sixteen sets
+      limit), ORCPT rfc822 / utf-8 in BOTH forms (every text over
+      U+0020..U+007F and all non-ASCII scalar values, the Unicode White_Space
+      code points included: the unitext form embeds them as \x{HEX} -
+      C14_unitext_ws_free, C14_orcpt_unicode_space_witness; sending them raw
+      was finding F29, fixed), NOTIFY (the sixteen sets
       checkNotifySet accepts - C14_notify_sets_exact), RRVS (C14_rrvs on top
       of C14_rfc3339_roundtrip: every instant whose local date is in the years
       0001..9999, every zone offset of whole minutes inside (-24h, +24h); the
@@ -58,12 +62,6 @@
      addr_ok is addr_simple minus the addresses the server REFUSES with 501:
           one of ( ) < > [ ] : ; \ , DQUOTE in the local part, or a trailing '@'
           (C14_addr_special_refused: nothing reaches the backend).
-     NEW  ORCPT=UTF-8 with SMTPUTF8 negotiated (unitext form) containing a
-          non-ASCII Unicode White_Space code point (U+0085, U+00A0, U+1680,
-          U+2000..U+200A, U+2028, U+2029, U+202F, U+205F, U+3000): the
-          server's TrimSpace / Fields cut the value
-          (C14_orcpt_unicode_space_refuted; C14_unitext_ws_free shows these
-          are the only such code points).
      Auth = "<>" literally (arrives as ""; C14_auth_brackets_refuted), Auth
           values that are not 7-bit mailboxes, negative Size
           (C14_negative_size_refused), Size above the server's limit. *)
@@ -260,7 +258,7 @@ Theorem C14_rcpt_trip cfg ext c to opts :
   let o := match opts with Some o => o | None => ro_zero end in
   let ps := rcpt_toks ext o in
   addr_ok to = true ->
-  rcpt_dom ext o -> rcpt_srv cfg o -> rcpt_ext ext o -> rcpt_state_ok cfg c ->
+  rcpt_dom o -> rcpt_srv cfg o -> rcpt_ext ext o -> rcpt_state_ok cfg c ->
   Client.rcpt_params ext opts = inl ps
   /\ exists arg,
        parse_cmd (Client.rcpt_line to ps) = Some (bs "RCPT", arg)
@@ -270,9 +268,10 @@ Theorem C14_rcpt_trip cfg ext c to opts :
 Proof. exact (C14Proofs.C14_rcpt_trip cfg ext c to opts). Qed.
 Print Assumptions C14_rcpt_trip.
 
-(* the ORCPT=UTF-8 clause of rcpt_dom from a condition on code points *)
+(* the unitext form of EVERY text of the domain contains nothing that
+   strings.Fields / strings.TrimSpace (unicode.IsSpace) take for white space *)
 Theorem C14_unitext_ws_free cs :
-  forallb addr_cp cs = true -> forallb (fun cp => negb (uspace_cp cp)) cs = true ->
+  forallb addr_cp cs = true ->
   ws_free (encode_utf8_addr_unitext (utf8_of_runes cs)) = true.
 Proof. exact (unitext_ws_free cs). Qed.
 Print Assumptions C14_unitext_ws_free.
@@ -353,20 +352,6 @@ Theorem C14_addr_special_refused :
 Proof. exact C14Proofs.C14_addr_special_refused. Qed.
 Print Assumptions C14_addr_special_refused.
 
-Theorem C14_orcpt_unicode_space_refuted :
-  let nbsp := [b 194; b 160] in
-  option_map rcpts (trip_rcpt cfg_all ext_all c_ready (bs "r@s")
-                      (Some (mkRO [] (bs "UTF-8") (bs "x@y" ++ nbsp) None)))
-  = Some [(bs "r@s", mkRO [] (bs "UTF-8") (bs "x@y") None)]
-  /\ option_map rcpts (trip_rcpt cfg_all ext_all c_ready (bs "r@s")
-                         (Some (mkRO [] (bs "UTF-8") (bs "x" ++ nbsp ++ bs "y@z") None)))
-     = Some []
-  /\ option_map rcpts (trip_rcpt cfg_noutf8 ext_noutf8 c_ready (bs "r@s")
-                         (Some (mkRO [] (bs "UTF-8") (bs "x@y" ++ nbsp) None)))
-     = Some [(bs "r@s", mkRO [] (bs "UTF-8") (bs "x@y" ++ nbsp) None)].
-Proof. exact C14Proofs.C14_orcpt_unicode_space_refuted. Qed.
-Print Assumptions C14_orcpt_unicode_space_refuted.
-
 Theorem C14_auth_brackets_refuted :
   parse_mailbox (bs "<>") = None
   /\ option_map mails (trip_mail cfg_all ext_all c_ready (bs "a@b")
@@ -420,12 +405,38 @@ Example C14_body_witness :
 Proof. exact C14Proofs.C14_body_ex. Qed.
 
 Example C14_rcpt_trip_witness :
-  addr_ok from_ex = true /\ rcpt_dom ext_all ro_ex /\ rcpt_srv cfg_all ro_ex
+  addr_ok from_ex = true /\ rcpt_dom ro_ex /\ rcpt_srv cfg_all ro_ex
   /\ rcpt_ext ext_all ro_ex /\ rcpt_state_ok cfg_all c_ready
-  /\ rcpt_dom ext_noutf8 ro_ex /\ rcpt_ext ext_noutf8 ro_ex /\ rcpt_srv cfg_noutf8 ro_ex
+  /\ rcpt_ext ext_noutf8 ro_ex /\ rcpt_srv cfg_noutf8 ro_ex
   /\ option_map rcpts (trip_rcpt cfg_all ext_all c_ready from_ex (Some ro_ex))
      = Some [(from_ex, seen_rcpt ro_ex)]
   /\ option_map rcpts (trip_rcpt cfg_noutf8 ext_noutf8 c_ready from_ex (Some ro_ex))
      = Some [(from_ex, seen_rcpt ro_ex)]
   /\ Client.rcpt_params ext_all (Some ro_ex) <> Client.rcpt_params ext_noutf8 (Some ro_ex).
 Proof. exact C14Proofs.C14_rcpt_trip_ex. Qed.
+
+(* formerly F29: ORCPT=UTF-8 containing each of the nineteen non-ASCII
+   White_Space code points (at the start, inside, at the end) arrives
+   unchanged, with and without SMTPUTF8 *)
+Example C14_orcpt_unicode_space_witness :
+  let nbsp := [b 194; b 160] in
+  Client.rcpt_params ext_all (Some (mkRO [] (bs "UTF-8") (bs "x@y" ++ nbsp) None))
+  = inl [bs "ORCPT=UTF-8;x@y\x{A0}"]
+  /\ option_map rcpts (trip_rcpt cfg_all ext_all c_ready (bs "r@s")
+                         (Some (mkRO [] (bs "UTF-8") (bs "x@y" ++ nbsp) None)))
+     = Some [(bs "r@s", mkRO [] (bs "UTF-8") (bs "x@y" ++ nbsp) None)]
+  /\ option_map rcpts (trip_rcpt cfg_all ext_all c_ready (bs "r@s")
+                         (Some (mkRO [] (bs "UTF-8") (bs "x" ++ nbsp ++ bs "y@z") None)))
+     = Some [(bs "r@s", mkRO [] (bs "UTF-8") (bs "x" ++ nbsp ++ bs "y@z") None)]
+  /\ option_map rcpts (trip_rcpt cfg_noutf8 ext_noutf8 c_ready (bs "r@s")
+                         (Some (mkRO [] (bs "UTF-8") (bs "x@y" ++ nbsp) None)))
+     = Some [(bs "r@s", mkRO [] (bs "UTF-8") (bs "x@y" ++ nbsp) None)]
+  /\ forallb (fun cp =>
+        let o := mkRO [] (bs "UTF-8") (utf8_of_runes [cp; 120; cp; 64; 121; cp]%N) None in
+        let arrives cfg ext :=
+          match option_map rcpts (trip_rcpt cfg ext c_ready (bs "r@s") (Some o)) with
+          | Some [(to, o')] => bytes_eqb to (bs "r@s") && CheckTrip.ro_matches o o'
+          | _ => false
+          end in
+        arrives cfg_all ext_all && arrives cfg_noutf8 ext_noutf8) uspace_cps = true.
+Proof. exact C14Proofs.C14_orcpt_unicode_space_ex. Qed.
